@@ -185,7 +185,7 @@ impl World for WorldI {
                     };
                     let body = if deploy_body {
                         InBody::Deploy {
-                            id: if rng.chance(4, 5) { InId::Fresh(rng.below(6) as u8) } else { InId::Taken(rng.below(4) as u8) },
+                            id: match rng.weighted(&[11, 4, 3, 2]) { 0 => InId::Fresh(rng.below(6) as u8), 1 => InId::Taken(rng.below(4) as u8), 2 => InId::CanonicalOf(rng.below(4) as u8), _ => InId::LocalOf { caller: rng.below(4) as u8, salt: rng.below(3) as u8 } },
                             meta: gen_meta(rng, true),
                             minter: match rng.weighted(&[5, 4, 1]) { 0 => InMinter::None, 1 => InMinter::User(rng.below(4) as u8), _ => InMinter::Garbage },
                         }
